@@ -557,6 +557,10 @@ pub struct Context {
 	pub fee: Option<FeeFields>,
 	/// Payment proof sender address derivation path, if needed
 	pub payment_proof_derivation_index: Option<u32>,
+	/// Payment proof recipient address requested when the transaction was
+	/// initiated, if any (absent in contexts stored by earlier versions)
+	#[serde(default, with = "dalek_ser::option_dalek_pubkey_serde")]
+	pub payment_proof_recipient_address: Option<DalekPublicKey>,
 	/// If late-locking, store my tranasction creation prefs
 	/// for later
 	pub late_lock_args: Option<InitTxArgs>,
@@ -610,6 +614,7 @@ impl Context {
 			amount: 0,
 			fee: None,
 			payment_proof_derivation_index: None,
+			payment_proof_recipient_address: None,
 			late_lock_args: None,
 			calculated_excess: None,
 		}
